@@ -8,6 +8,7 @@ import gen_caps
 import gen_fsm
 import gen_comm
 import gen_timer
+import gen_bmp
 
 GENERATORS = {
     'enums': (gen_enums.gen, 'EnumTables.v'),
@@ -19,4 +20,5 @@ GENERATORS = {
     'fsm': (gen_fsm.gen, 'FsmTable.v'),
     'comm': (gen_comm.gen, 'CommTables.v'),
     'timer': (gen_timer.gen, 'TimerConsts.v'),
+    'bmp': (gen_bmp.gen, 'BmpPins.v'),
 }
